@@ -32,24 +32,13 @@ def run : Handler := fun j => do
   | none => pure (Json.mkObj [("exc", "KeyError")])
   | some progs =>
     let c : Ctx := { orc, programs := progs, taxa := db.taxa, exportations := db.exportations }
-    let rec go (st : State) (log : List LogEntry) (rs : List (List Filter.Command)) : Except Err (State × List LogEntry) :=
-      match rs with
-      | [] => .ok (st, log)
-      | cmds :: t =>
-        match runLogged c C04.genRelations st cmds with
-        | .error e => .error e
-        | .ok (st', l) => go st' (log ++ l) t
-    match go (initState progs) [] runs with
-    | .error e => pure (C04.errJson e)
-    | .ok (st, log) =>
-      match assess strat progs st.knowledge st.selected with
-      | none => pure (Json.mkObj [("exc", "KeyError")])
-      | some assessed =>
-        let inp : Input := ⟨strat, progs, (fun p => (dictGet? slocs p).getD 0), st.knowledge, st.hiddenTaxa,
-          st.hiddenPrograms, assessed, sorting, grouping⟩
-        match body inp with
-        | none => pure (Json.mkObj [("exc", "KeyError")])
-        | some b =>
+    match recommend c C04.genRelations strat (fun p => (dictGet? slocs p).getD 0) sorting grouping runs with
+    | .err e => pure (C04.errJson e)
+    | .keyError => pure (Json.mkObj [("exc", "KeyError")])
+    | .ok rep =>
+          let b := rep.body
+          let log := rep.log
+          let st := rep.final
           let bj := b.map fun (bk, secs) =>
             Json.mkObj [("label", Json.str (bucketLabel bk)), ("count", Json.num secs.length),
               ("sections", Json.arr (secs.map fun s =>
